@@ -13,6 +13,7 @@ import engine  # noqa: E402,F401  (puts the repository on sys.path)
 def replay(rec, witness=False):
     from engine import rt
     mod = importlib.import_module(rec["module"])
+    rt.OPEN_TAGS = set(rec.get("open_tags", []))
     if hasattr(mod, "configure"):
         mod.configure(rec.get("P", {}))
     if rec.get("kind") == "direct":
